@@ -4,6 +4,7 @@ import (
 	"encoding/binary"
 	"encoding/json"
 	"fmt"
+	"math/rand"
 	"slices"
 	"sort"
 	"strconv"
@@ -126,6 +127,9 @@ func (w *world) mk(id, ver int) elem {
 		return mkElem(&types.FileContractElement{ID: types.FileContractID(h1), FileContract: fc})
 	case kV2FC:
 		size := 64 * (1 + uint64(h2[4]%3) + uint64(ver))
+		if h2[9]%3 == 0 {
+			size = 0 // an empty file: its storage proof has nothing to prove but the history
+		}
 		host := 5000 + u64(h2, 8)%20000
 		fc := types.V2FileContract{Capacity: size + 64*uint64(h2[6]%3), Filesize: size, FileMerkleRoot: w.fileRoot(size),
 			RenterOutput:    types.SiacoinOutput{Value: types.NewCurrency64(20000 + u64(h2, 16)%20000), Address: K.Addr("A")},
@@ -157,10 +161,7 @@ func (w *world) host() *host {
 	for i := range w.leaves {
 		l := &w.leaves[i]
 		if x, ok := l.el.v.(*types.V2FileContractElement); ok && !l.spent {
-			if _, have := h.proofParents[x.V2FileContract.ProofHeight]; !have {
-				c := x.Copy()
-				h.proofParents[x.V2FileContract.ProofHeight] = &c
-			}
+			h.addProofParent(x)
 		}
 	}
 	return h
@@ -616,6 +617,13 @@ func runCase(c *vlib.Ctx, st *stats, tmpl consensus.State, K *chain.Keyring, see
 		h := w.host()
 		tr := w.truth()
 		h.tr = tr
+		if o.v2txn && ph.Ph >= 1 {
+			var cur []held
+			for _, l := range w.leaves {
+				cur = append(cur, held{l.el, l.spent})
+			}
+			inBlock(c, st, h, ibCases, cur, rand.New(rand.NewSource(int64(w.seed)*31+int64(ph.Ph))), map[string]any{"case": m.key(), "phase": ph.Ph})
+		}
 		full := map[string]int{}
 		for i, f := range ph.Full {
 			full[f.D] = i
